@@ -21,7 +21,6 @@ import (
 	"time"
 
 	"github.com/alibaba/RedisShake/pkg/libs/log"
-	"github.com/alibaba/RedisShake/pkg/rdb/digest"
 	run "github.com/alibaba/RedisShake/redis-shake"
 	utils "github.com/alibaba/RedisShake/redis-shake/common"
 	conf "github.com/alibaba/RedisShake/redis-shake/configure"
@@ -295,9 +294,7 @@ func c06rdb(es []c06ent) []byte {
 		b.Write(c06str([]byte("v")))
 	}
 	b.WriteByte(0xff)
-	d := digest.New()
-	d.Write(b.Bytes())
-	b.Write(d.Sum(nil))
+	b.Write(crc64Trailer(b.Bytes()))
 	return b.Bytes()
 }
 
